@@ -1,11 +1,36 @@
 import Mp4ff.Model.Aac
+import Mp4ff.Lemmas.C18Proofs
 /-!
 # C18 — audio configuration codecs are exact over their whole domain
+Property theorems (proofs in `Mp4ff/Lemmas/C18Proofs.lean`).
 -/
 namespace Mp4ff.Aac.C18
 
-/-- the 13 table frequencies are pairwise distinct and have distinct indices (so the two Go maps
-    `FrequencyTable` / `ReverseFrequencies` can be mutually inverse at all) -/
+/-- the 13 table frequencies are pairwise distinct and have distinct indices -/
 theorem freqTable_nodup : (freqTable.map (·.1)).Nodup ∧ (freqTable.map (·.2)).Nodup := by decide
+
+/-- `FrequencyTable` and `ReverseFrequencies` are mutually inverse -/
+theorem freq_tables_inverse : ∀ p ∈ freqTable, indexOfFreq p.2 = some p.1 ∧ freqOfIndex p.1 = some p.2 :=
+  Aac.freq_tables_inverse
+
+/-- **AudioSpecificConfig**: every configuration the library supports — object types 2/5/29, all 16 channel
+    configurations, every sampling/extension frequency below 2^24 whether in the table or explicit — survives
+    encode → decode (a theorem over the whole domain, not an enumeration) -/
+theorem asc_roundtrip (a : ASC) (h : AscDom a) : ∃ bs, encodeASC a = some bs ∧ decodeASC bs = .ok a :=
+  Aac.asc_roundtrip a h
+
+/-- **ADTS**: every header (object types 1..4, all 16 frequency indices, channel configs 0..7, payload lengths
+    0..8184, any buffer fullness) survives encode → decode, with up to 187 junk bytes in front (free of false
+    sync patterns) and anything behind, and the decoder reports the offset of the sync word -/
+theorem adts_roundtrip (a : ADTS) (h : AdtsDom a) (junk tail : Bytes) (hj : IsBytes junk) (ht : IsBytes tail)
+    (hl : junk.length ≤ 187) (hns : NoFalseSync junk) :
+    decodeADTS (junk ++ encodeADTS a ++ tail) = .ok (a, (junk.length : Int)) :=
+  Aac.adts_roundtrip a h junk tail hj ht hl hns
+
+/-! non-vacuity -/
+example : AscDom ⟨29, 1, 22050, 44100, true, true⟩ := by simp [AscDom]
+example : AscDom ⟨2, 15, 12345, 0, false, false⟩ := by simp [AscDom]
+example : AdtsDom ⟨0, 2, 3, 2, 7, 8184, 0x7ff⟩ := by simp [AdtsDom]
+example : NoFalseSync [0x47, 0xff, 0xff, 0xfe, 0x00, 0xff] := by simp [NoFalseSync]
 
 end Mp4ff.Aac.C18
